@@ -448,8 +448,16 @@ class Gen:
             self.use("match:of-" + ty[0])
             return ["match", e, [["gitem", "E", "ea", a], ["gelse", b]]]
         style = r.choice(["?:", "if"])
-        self.use("cond:of-" + ty[0])
         cnd = self.e_cond(scope, min(d - 1, 2))
+        if self.is_const_expr(cnd):
+            # a LITERAL condition over range branches hits a defect of the constant reducer (the type of the removed
+            # conditional is freed while an enclosing array operation still points at it; probe
+            # constred-cond-of-ranges-frees-type-still-used): generated conditions here are not constants
+            vs = self.vars_of(scope, INT)
+            if not vs:
+                return None
+            cnd = ["bin", "le", ["var", r.choice(vs)["name"]], self.lit(INT)]
+        self.use("cond:of-" + ty[0])
         if style == "if":
             a, b = self.as_block(a), self.as_block(b)
         return ["cond", cnd, a, b, style]
@@ -739,9 +747,21 @@ class Gen:
     def e_arr(self, ty, scope, d):
         r = self.r
         if ty == ARR2:
-            c = r.weighted([("lit", 10), ("var", 10), ("new", 6)])
+            c = r.weighted([("lit", 10), ("var", 10), ("new", 6), ("arith", 6)])
             if c == "var":
                 return self.leaf(ty, scope)
+            if c == "arith" and d > 0:
+                # matrix product (2-dimensional, columns = rows, else wrong_array_size), sum, scalar multiple, negation
+                k = r.choice(["matmul", "matmul", "add", "scale", "neg"])
+                self.use("arrarith2:" + k)
+                # (the elements of the result are assignable only if those of the operands are)
+                a, ca = self.expr(ARR2, scope, d - 1)
+                if k == "neg":
+                    return ["un", "neg", a], ("C" if ca == "C" else "T")
+                if k == "scale":
+                    return ["bin", "mul", self.expr(INT, scope, min(d - 1, 1))[0], a], ("C" if ca == "C" else "T")
+                b, cb = self.expr(ARR2, scope, d - 1)
+                return ["bin", "mul" if k == "matmul" else r.choice(["add", "sub"]), a, b], ("C" if "C" in (ca, cb) else "T")
             if c == "new":
                 self.use("arrnew2")
                 return ["arrnew", INT, [["int", r.range(1, 3)], ["int", r.range(2, 3)]]], "T"
@@ -750,9 +770,20 @@ class Gen:
             return ["arrlit", [n, m], INT, [self.expr(INT, scope, d - 1)[0] for _ in range(n * m)]], "T"
         el = ty[2]
         c = r.weighted([("lit", 14), ("var", 12), ("new", 5), ("comp", 6 if el == INT else 0), ("call", 4 if el == INT else 0),
-                        ("rderef", int(5 * self.k["ranges"]) if el == INT else 0)])
+                        ("rderef", int(5 * self.k["ranges"]) if el == INT else 0), ("arith", 7)])
         if c == "var":
             return self.leaf(ty, scope)
+        if c == "arith" and d > 0:
+            # element-wise: a + b, a - b (extents must agree, else wrong_array_size), k * a (scalar on the left), -a
+            k = r.choice(["add", "sub", "scale", "neg"])
+            self.use("arrarith:" + k)
+            a, ca = self.expr(ty, scope, d - 1)
+            if k == "neg":
+                return ["un", "neg", a], ("C" if ca == "C" else "T")
+            if k == "scale":
+                return ["bin", "mul", self.expr(el, scope, min(d - 1, 1))[0], a], ("C" if ca == "C" else "T")
+            b, cb = self.expr(ty, scope, d - 1)
+            return ["bin", k, a, b], ("C" if "C" in (ca, cb) else "T")
         if c == "rderef":
             if self.ch(0.3):
                 a, _ = self.expr(RNG2, scope, d - 1)
